@@ -139,7 +139,7 @@ theorem reportEvents_eq_expected (ctx : Ctx) (node : Node) (ff : Bool) (paths : 
     (hev : eventsWF node = true) (hwf : WF ctx.fabrics) (hcan : CanonicalPrivs ctx.fabrics)
     (hg : ctx.accessor.authMode ≠ some AuthMode.group) :
     reportEvents ctx node ff paths queue = expectedEvents ctx node ff paths queue := by
-  unfold reportEvents expectedEvents
+  unfold reportEvents expectedEvents eventStatuses
   congr 1
   · -- statuses
     apply filterMap_congr_mem
@@ -169,8 +169,11 @@ theorem reportEvents_eq_expected (ctx : Ctx) (node : Node) (ff : Bool) (paths : 
       unfold EventOcc.path
       rw [hconc]
       cases expectedEventStatus ctx node o.ep o.cl o.ev <;> rfl
-    unfold eventVisible matchesFabric
-    rw [hvalid]
+    have hfab : matchesFabric ctx o = fabricAllows ctx o := by
+      unfold matchesFabric fabricAllows EventOcc.fabricOf
+      cases o.fab <;> rfl
+    unfold eventVisible
+    rw [hvalid, hfab]
     cases hst : (expectedEventStatus ctx node o.ep o.cl o.ev).isNone with
     | false => simp
     | true =>
@@ -185,7 +188,7 @@ theorem reportEvents_eq_expected (ctx : Ctx) (node : Node) (ff : Bool) (paths : 
         | false => simp
         | true => simp [validate_of_match hv hm]
       rw [hany]
-      cases ff <;> cases (o.fab == 0) <;> cases (o.fab == ctx.accessor.fabIdx) <;>
+      cases fabricAllows ctx o <;>
         cases paths.any (fun p => matchesOpt p.endpoint o.ep && matchesOpt p.cluster o.cl && matchesOpt p.leaf o.ev) <;> rfl
 
 end C06
